@@ -105,6 +105,7 @@ public:
   std::vector<const VarDecl *> globalList;
   std::vector<std::string> funcJson;
   std::vector<std::string> globalAccessJson;
+  std::vector<std::string> enumJson;
 
   // ------------------------------------------------------------------ locations
   std::string fileOf(SourceLocation L) {
@@ -1101,6 +1102,25 @@ public:
     if (D.globalsSeen.insert(Def->getCanonicalDecl()).second) D.globalList.push_back(Def);
     return true;
   }
+  bool VisitEnumDecl(EnumDecl *E) {
+    if (!E->isThisDeclarationADefinition()) return true;
+    if (E->isDependentContext()) return true;
+    if (!D.inRepo(E->getLocation())) return true;
+    std::string o = "{\"q\":" + jesc(E->getQualifiedNameAsString());
+    o += ",\"file\":" + std::to_string(D.fileId(D.fileOf(E->getLocation()))) + ",\"line\":" + std::to_string(D.lineOf(E->getLocation()));
+    o += ",\"items\":[";
+    bool first = true;
+    for (const EnumConstantDecl *C : E->enumerators()) {
+      if (!first) o += ",";
+      first = false;
+      llvm::SmallString<32> v;
+      C->getInitVal().toString(v, 10);
+      o += "[" + jesc(C->getName()) + "," + std::string(v.str()) + "]";
+    }
+    o += "]}";
+    D.enumJson.push_back(o);
+    return true;
+  }
   bool VisitCXXRecordDecl(CXXRecordDecl *R) {
     if (!R->isThisDeclarationADefinition()) return true;
     if (R->isDependentContext()) return true;
@@ -1167,6 +1187,8 @@ public:
     for (size_t i = 0; i < recs.size(); ++i) OS << (i ? ",\n" : "") << recs[i];
     OS << "],\n\"globals\":[\n";
     for (size_t i = 0; i < globs.size(); ++i) OS << (i ? ",\n" : "") << globs[i];
+    OS << "],\n\"enums\":[\n";
+    for (size_t i = 0; i < D.enumJson.size(); ++i) OS << (i ? ",\n" : "") << D.enumJson[i];
     OS << "]}\n";
   }
 
